@@ -524,7 +524,7 @@ theorem stepV1_buf (order lr len rem : Nat) (acc : List Nat) (h : Hdr) (buf : Ar
     (hb : Bytes buf) : StepBuf (stepV1 order lr len rem acc h buf bs0 fsz) := by
   unfold stepV1
   simp only
-  cases hq : chunkPreV1 order h.rest with
+  cases hq : chunkPreV1 order len h.rest with
   | ok q =>
     simp only
     split
@@ -666,5 +666,157 @@ theorem renormV1_stable (buf : Array Nat) : ∀ (fuel n : Nat) (st : Int) (k : N
 theorem renormV1_fuel (buf : Array Nat) (n : Nat) (st : Int) (k : Nat) :
     renormV1 buf (buf.size / 2 + 1 + k) n st = renormV1 buf (buf.size / 2 + 1) n st :=
   renormV1_stable buf _ n st k (by omega) (by omega)
+
+/-! ### F. `len(this.buffer)` is bounded for EVERY bitstream version (version 1 since its repair) -/
+
+def StepSz (B : Nat) : Step → Prop
+  | .done r => r.bufSz ≤ B
+  | .next _ _ _ _ b _ => b.size ≤ B
+
+theorem chunkPreV1_sz (order len : Nat) (bs : Bits) (q : PreV1) (h : chunkPreV1 order len bs = .ok q) :
+    q.sz ≤ max (2 * len) 256 := by
+  unfold chunkPreV1 at h
+  cases hv : readVarInt bs with
+  | none => rw [hv] at h; cases h
+  | some p =>
+    obtain ⟨v, r⟩ := p
+    rw [hv] at h
+    simp only at h
+    split at h
+    · cases h
+    · rename_i hle
+      cases h0 : rBits 32 r with
+      | ok x0 =>
+        rw [h0] at h
+        simp only [AnsDec.R.bind] at h
+        split at h
+        · cases h1 : rBits 32 x0.2 with
+          | ok x1 =>
+            rw [h1] at h
+            simp only [R.ok.injEq] at h
+            rw [← h]; simp only; omega
+          | err => rw [h1] at h; cases h
+          | eos => rw [h1] at h; cases h
+          | fault => rw [h1] at h; cases h
+          | overrun => rw [h1] at h; cases h
+        · simp only [R.ok.injEq] at h
+          rw [← h]; simp only; omega
+      | err => rw [h0] at h; cases h
+      | eos => rw [h0] at h; cases h
+      | fault => rw [h0] at h; cases h
+      | overrun => rw [h0] at h; cases h
+
+theorem bufSizeAfterV1_le (psz sz B : Nat) (h1 : sz ≤ B) (h2 : psz + psz / 8 ≤ B) : bufSizeAfterV1 psz sz ≤ B := by
+  unfold bufSizeAfterV1; split <;> omega
+
+theorem stepV1_sz (order lr len rem : Nat) (acc : List Nat) (h : Hdr) (buf : Array Nat) (bs0 : Bits) (fsz B : Nat)
+    (hB : buf.size ≤ B) (hB2 : max (2 * len) 256 + max (2 * len) 256 / 8 ≤ B) :
+    StepSz B (stepV1 order lr len rem acc h buf bs0 fsz) := by
+  unfold stepV1
+  simp only
+  cases hq : chunkPreV1 order len h.rest with
+  | ok q =>
+    simp only
+    have hsz := chunkPreV1_sz order len h.rest q hq
+    have hq8 : q.sz + q.sz / 8 ≤ B := by omega
+    have hba : (bufAllocV1 q.sz buf).size = bufSizeAfterV1 q.sz buf.size := by
+      unfold bufAllocV1 bufSizeAfterV1
+      split <;> simp
+    have hle := bufSizeAfterV1_le q.sz buf.size B hB hq8
+    split
+    · exact hB
+    · cases hl : loadPayloadV1 q.sz (bufAllocV1 q.sz buf) q.rest with
+      | ok pl =>
+        simp only
+        have hps : pl.1.size = bufSizeAfterV1 q.sz buf.size := by
+          unfold loadPayloadV1 at hl
+          cases hr : readBytes q.sz q.rest with
+          | none => rw [hr] at hl; cases hl
+          | some qq =>
+            rw [hr] at hl
+            simp only [R.ok.injEq] at hl
+            rw [← hl]
+            simp only [writePrefix_size, hba]
+        split
+        · simp only [StepSz]; omega
+        · exact hle
+      | err => exact hle
+      | eos => exact hle
+      | fault => exact hle
+      | overrun => exact hle
+  | err => exact hB
+  | eos => exact hB
+  | fault => exact hB
+  | overrun => exact hB
+
+theorem stepV2_sz (order lr len rem : Nat) (acc : List Nat) (h : Hdr) (buf : Array Nat) (bs0 : Bits) (fsz B : Nat)
+    (hB : buf.size ≤ B) (hB2 : max (2 * len) 256 ≤ B) :
+    StepSz B (stepV2 order lr len rem acc h buf bs0 fsz) := by
+  unfold stepV2
+  simp only
+  have hle := bufSizeAfter_le len buf.size B hB hB2
+  split
+  · exact hB
+  · split
+    · rename_i pl hl
+      have hps : pl.1.size = bufSizeAfter len buf.size := by rw [loadPayload_ok _ _ _ _ hl, bufAlloc_size]
+      split
+      · simp only [StepSz]; omega
+      · exact hle
+    · exact hle
+  · exact hB
+
+theorem chunkStep_sz (p : Params) (count : Nat) (acc : List Nat) (syms : Array DecSym) (f2s buf : Array Nat)
+    (bs : Bits) (B : Nat) (hB : buf.size ≤ B)
+    (hB2 : max (2 * min p.chunkSize count) 256 + max (2 * min p.chunkSize count) 256 / 8 ≤ B) :
+    StepSz B (chunkStep p count acc syms f2s buf bs) := by
+  unfold chunkStep
+  simp only
+  split
+  · exact hB
+  · split
+    · split
+      · exact hB
+      · split
+        · exact hB
+        · split
+          · exact stepV1_sz _ _ _ _ _ _ _ _ _ B hB hB2
+          · exact stepV2_sz _ _ _ _ _ _ _ _ _ B hB (by omega)
+    · exact hB
+    · exact hB
+
+theorem readLoop_sz (p : Params) (B : Nat) : ∀ (fuel count : Nat) (acc : List Nat) (syms : Array DecSym)
+    (f2s buf : Array Nat) (bs : Bits), buf.size ≤ B →
+    max (2 * min p.chunkSize count) 256 + max (2 * min p.chunkSize count) 256 / 8 ≤ B →
+    (readLoop p fuel count acc syms f2s buf bs).bufSz ≤ B := by
+  intro fuel
+  induction fuel with
+  | zero => intro count acc syms f2s buf bs hB _; exact hB
+  | succ fuel ih =>
+    intro count acc syms f2s buf bs hB hB2
+    simp only [readLoop]
+    split
+    · exact hB
+    · have hs := chunkStep_sz p count acc syms f2s buf bs B hB hB2
+      have hsh := chunkStep_shape p count acc syms f2s buf bs
+      cases hstep : chunkStep p count acc syms f2s buf bs with
+      | done r => rw [hstep] at hs; exact hs
+      | next c a s f b r =>
+        rw [hstep] at hs hsh
+        simp only [StepShape] at hsh
+        simp only
+        refine ih c a s f b r hs ?_
+        have : min p.chunkSize c ≤ min p.chunkSize count := by rw [hsh]; omega
+        omega
+
+/-- **every bitstream version**: `len(this.buffer)` after a `Read` of `count` bytes, however it ends,
+    is at most `max(before, m + m/8)` with `m = max(2·min(chunkSize, count), 256)` -/
+theorem read_sz (p : Params) (s : St) (bs : Bits) (count : Nat) :
+    (read p s bs count).bufSz ≤
+      max s.buf.size (max (2 * min p.chunkSize count) 256 + max (2 * min p.chunkSize count) 256 / 8) := by
+  unfold read
+  split
+  · cases readBytes count bs <;> (simp only; omega)
+  · exact readLoop_sz p _ _ count [] s.syms s.f2s s.buf bs (by omega) (by omega)
 
 end Kanzi.AnsDec
